@@ -375,6 +375,16 @@ func (in *interp) node(n *Node, env *Env, parent string) {
 		}
 		// copy on push: the block closure keeps the caller's stack, which must
 		// not share a backing array with stacks pushed later
+		if n.Callee.Code {
+			// hand-written capture component: <q> children </q>, nothing else
+			e.atom(Atom{Kind: "start", Name: "q"})
+			if block != nil {
+				block()
+			}
+			e.cur = describe(n, parent)
+			e.atom(Atom{Kind: "end", Name: "q"})
+			return
+		}
 		outer := in.slot
 		in.slot = append(append(make([]func(), 0, len(outer)+1), outer...), block)
 		in.list(n.Callee.Body, cenv, "template", n.Callee.End, false)
